@@ -199,7 +199,8 @@ def _inline_call(methods, call, how, target, depth, stop=(), ho_only=False, impu
                                for a in list(call.args) + [k.value for k in call.keywords]):
             return None
         callee = methods[f.attr]
-        params = [a.arg for a in callee.args.args][1:]
+        static = any((isinstance(d, ast.Name) and d.id == 'staticmethod') for d in callee.decorator_list)
+        params = [a.arg for a in callee.args.args][0 if static else 1:]
     if callee.args.vararg or callee.args.kwarg or len(call.args) > len(params):
         return None
     bound = {}
